@@ -173,6 +173,19 @@ def tlc_validate(workdir, spec, trace_path, env_extra=None, timeout=900, heap="3
     raise ToolError("TLC trace validation error (%s on %s):\n%s" % (spec, trace_path, out[-6000:]))
 
 
+def apalache_check(workdir, module_path, args, timeout=900):
+    """Run apalache-mc check; returns True iff the outcome is NoError. Tool failures raise."""
+    out_dir = os.path.join(workdir, "apalache-out")
+    cmd = ["timeout", str(timeout), "apalache-mc", "check", "--out-dir=" + out_dir] + args + [module_path]
+    p = sh(cmd, cwd=os.path.dirname(module_path), check=False, timeout=timeout + 30)
+    shutil.rmtree(out_dir, ignore_errors=True)
+    if "The outcome is: NoError" in p.stdout:
+        return True
+    if "The outcome is: Error" in p.stdout:
+        return False
+    raise ToolError("apalache failed:\n" + p.stdout[-3000:])
+
+
 # ---------------------------------------------------------------------------------------
 # harness runs
 
